@@ -1,6 +1,5 @@
-//@ assume: the Desegmenter is reduced to the three fields calc_bitmap_mmr_sizes touches; the archive header to output_mmr_size
-//@ assume: T6 rewrites: the `1 + pmmr::peaks(..).last().unwrap_or(..).clone()` expression computing bitmap_mmr_size => abstract helper `bitmap_size_for(leaf_count)` (pmmr::peaks is not under contract; the expression is NOT verified here); log macros removed
-//@ assume: decided here: the number of bitmap-MMR leaves the syncing node expects is exactly ceil(number of output leaves / 1024) -- one 1024-bit chunk per started block of 1024 outputs, and no extra chunk at exact multiples -- which is what a serving node's accumulator holds (C15 chunk arithmetic)
+//@ assume: the Desegmenter is reduced to the three fields calc_bitmap_mmr_sizes touches; pmmr::peaks is abstract: it returns the peak positions of an MMR of the given size, NON-EMPTY exactly when the size is a valid non-zero MMR size (peaks(0) is empty; for a valid size the last peak is the last node, size - 1)
+//@ assume: decided here: Desegmenter::calc_bitmap_mmr_sizes (run by Desegmenter::new for every archive header) never panics and yields leaf count == ceil(output leaves / 1024) and bitmap MMR size == the size of an MMR with that many leaves
 //@ assume: 64-bit target
 //@ assumed_items: 1
 //@ fns: Desegmenter::calc_bitmap_mmr_sizes
@@ -8,17 +7,24 @@
 
 pub struct ArchiveHeader { pub output_mmr_size: u64 }
 pub struct Desegmenter { pub archive_header: ArchiveHeader, pub bitmap_mmr_leaf_count: u64, pub bitmap_mmr_size: u64 }
-#[verifier::external_body]
-fn bitmap_size_for(leaf_count: u64) -> (r: u64) { unimplemented!() }
+pub mod pmmr {
+    use super::*;
+    #[verifier::external_body]
+    pub fn peaks(size: u64) -> (r: Vec<u64>)
+        ensures (r@.len() > 0) == (size > 0 && exists|n: nat| #![auto] size as nat == leaf_pos(n, 64)),
+                r@.len() > 0 ==> r@.last() == size - 1
+    { unimplemented!() }
+    pub fn n_leaves(size: u64) -> (r: u64) ensures r as nat == lb(size as nat, 64) { super::n_leaves(size) }
+    pub fn insertion_to_pmmr_index(nleaf0: u64) -> (r: u64) requires nleaf0 < 0x8000_0000_0000_0000u64 ensures r as nat == leaf_pos(nleaf0 as nat, 64) { super::insertion_to_pmmr_index(nleaf0) }
+}
 
 impl Desegmenter {
 //@ extract chain/src/txhashset/desegmenter.rs :: impl Desegmenter::calc_bitmap_mmr_sizes
 //@   strip_logs
-//@   rewrite `pmmr::n_leaves(self.archive_header.output_mmr_size)` => `n_leaves(self.archive_header.output_mmr_size)`
-//@   rewrite `\t\t\t1 + pmmr::peaks(pmmr::insertion_to_pmmr_index(self.bitmap_mmr_leaf_count))\n\t\t\t\t.last()\n\t\t\t\t.unwrap_or(\n\t\t\t\t\t&(pmmr::peaks(pmmr::insertion_to_pmmr_index(\n\t\t\t\t\t\tself.bitmap_mmr_leaf_count - 1,\n\t\t\t\t\t))\n\t\t\t\t\t.last()\n\t\t\t\t\t.unwrap()),\n\t\t\t\t)\n\t\t\t\t.clone();` => `\t\t\tbitmap_size_for(self.bitmap_mmr_leaf_count);`
 //@   ensures:
 //@+    final(self).bitmap_mmr_leaf_count as nat * 1024 >= lb(old(self).archive_header.output_mmr_size as nat, 64),
 //@+    final(self).bitmap_mmr_leaf_count as nat * 1024 < lb(old(self).archive_header.output_mmr_size as nat, 64) + 1024,
+//@+    final(self).bitmap_mmr_size as nat == leaf_pos(final(self).bitmap_mmr_leaf_count as nat, 64),
 //@+    final(self).archive_header == old(self).archive_header,
 //@   at_start:
 //@+    proof {
